@@ -162,6 +162,13 @@ impl SemanticState {
 
         for definition in &module.definitions {
             let new_path = path.join(definition.name.as_str().into());
+            // A type with a vftable block will have a vftable type generated next to it
+            if let grammar::ItemDefinitionInner::Type(ty) = &definition.inner {
+                if ty.statements.iter().any(|s| s.field.is_vftable()) {
+                    self.type_registry
+                        .reserve(path.join(format!("{}Vftable", definition.name).into()));
+                }
+            }
             self.add_item(ItemDefinition {
                 visibility: definition.visibility.into(),
                 path: new_path,
